@@ -239,7 +239,14 @@ func (p *Path) formatValue(verb byte, v Value, flags string) (Str, bool) {
 				return StrFromTerms(bs), true
 			}
 		}
-		return Str{C: "<slice>", Poison: true}, true
+		return p.formatList(verb, x.A, flags), true
+	case Array:
+		if len(x) > 0 {
+			if t, isT := x[0].(*Term); isT && t.S.K == SBV && t.S.W == 8 && verb == 'x' {
+				return hexOfBytes(bytesOf(p, Slice{A: x})), true
+			}
+		}
+		return p.formatList(verb, x, flags), true
 	case *Value:
 		if x == nil {
 			return StrC("<nil>"), true
@@ -247,6 +254,24 @@ func (p *Path) formatValue(verb byte, v Value, flags string) (Str, bool) {
 		return Str{C: "<ptr>", Poison: true}, true
 	}
 	return Str{C: "<val>", Poison: true}, true
+}
+
+// formatList renders a slice or array the way fmt does for %v: "[a b c]".
+func (p *Path) formatList(verb byte, elems []Value, flags string) Str {
+	res := StrC("[")
+	for i, e := range elems {
+		if i > 0 {
+			res = strConcat(res, StrC(" "))
+		}
+		// element types are not carried by slice values: 8-bit elements are rendered unsigned (bytes)
+		if t, ok := e.(*Term); ok && t.IsConst() && t.S.K == SBV && t.S.W == 8 && verb != 'x' {
+			res = strConcat(res, StrC(strconv.FormatUint(t.Val, 10)))
+			continue
+		}
+		s, _ := p.formatValue(verb, e, flags)
+		res = strConcat(res, s)
+	}
+	return strConcat(res, StrC("]"))
 }
 
 func hexNibble(n *Term) *Term {
@@ -765,7 +790,20 @@ func init() {
 	})
 	reg("fmt.Sprint", func(p *Path, fn *ssa.Function, a []Value) Value {
 		res := Str{}
-		for _, v := range variadic(a[0]) {
+		isString := func(v Value) bool {
+			ifc, ok := v.(Iface)
+			if !ok || ifc.T == nil {
+				return false
+			}
+			b, ok := ifc.T.Underlying().(*types.Basic)
+			return ok && b.Info()&types.IsString != 0
+		}
+		args := variadic(a[0])
+		for i, v := range args {
+			// fmt.Sprint: "Spaces are added between operands when neither is a string"
+			if i > 0 && !isString(v) && !isString(args[i-1]) {
+				res = strConcat(res, StrC(" "))
+			}
 			s, _ := p.formatValue('v', v, "")
 			res = strConcat(res, s)
 		}
